@@ -181,17 +181,21 @@ def disarmShutdownTimers (s : State) : State :=
   { s with timers := s.timers.filter fun t => t != "rtDeadline" && t != "agDeadline" && t != "grace",
            rtDeadlineFired := false, agDeadlineFired := false, graceFired := false }
 
-/-- `reinitialize` + `Server.Clear` + phase reset after a reset; then whoever asked continues -/
+/-- HandleReset returned: `rapidCtx.Clear()` = `reinitialize` runs (deferred in SandboxContext.Reset);
+    the rest of the Reset goroutine (`Server.Clear`, …) follows after pause point
+    `server.reset.beforeClear` — modelled as the timer `resetTail:<from>` that may fire at once. -/
 def afterReset (s : State) (from_ : Nat) : State :=
   let s := { s with gen := s.gen + 1 }
-  -- rapidCtx.Clear() = reinitialize
   let s := { s with fatal := none, renderer := .none, initDone := false, rt := none, rtParked := [], rtFlag := false,
                     agents := [], regOn := true, cancelDone := false, initFlow := {
                       extRegistered := s.initFlow.extRegistered.clear, runtimeReady := s.initFlow.runtimeReady.clear,
                       agentReady := s.initFlow.agentReady.clear, restoreReady := s.initFlow.restoreReady.clear },
                     invFlow := { runtimeReady := s.invFlow.runtimeReady.clear, runtimeResponse := s.invFlow.runtimeResponse.clear,
                                  agentReady := s.invFlow.agentReady.clear } }
-  -- Server.Clear(); phase idle; Reset() returns; s.Release()
+  { s with timers := s.timers ++ [s!"resetTail:{from_}"] }
+
+/-- `Server.Clear()`; phase idle; `Reset()` returns; `s.Release()`; then whoever asked continues -/
+def resetTail (s : State) (from_ : Nat) : State :=
   let s := release { s with doneChan := none, cached := none, rapidPhaseInvoking := false }
   match from_ with
   | 0 => s.emit "reset done err=false"
